@@ -4,7 +4,7 @@
    pipeline: Quorum/Pipeline.v (leader_controller.go:write + wal sync goroutine, O-1 repaired);
    the code as it was: Quorum/Old.v, Pipeline.v (PAlloc/PAppend). *)
 From Coq Require Import List NArith ZArith.
-From Oxia.Quorum Require Import Model Spec Proofs Exact Old Pipeline PipelineProofs PipelineOld PipelineLive.
+From Oxia.Quorum Require Import Model Spec Proofs Exact Old Pipeline PipelineProofs PipelineOld PipelineLive HeadWait.
 Import ListNotations.
 Open Scope Z_scope.
 
@@ -46,6 +46,14 @@ Theorem c08_true_commit_unique : forall s g hi c0 T T',
   is_true_commit s g hi c0 T -> is_true_commit s g hi c0 T' -> T = T'.
 Proof. exact true_commit_unique. Qed.
 Print Assumptions c08_true_commit_unique.
+
+(* the follower cursors parked in WaitForHeadOffset: after every call (AdvanceHeadOffset in particular) every
+   waiter parked for an offset <= head has returned, and every waiter once the tracker is closed *)
+Theorem c08_head_waiters_woken : forall st ops w,
+  ops <> [] -> In w (snd (hrun st ops)) ->
+  fst w > head (fst (hrun st ops)) /\ closed (fst (hrun st ops)) = false.
+Proof. exact head_waiters_woken. Qed.
+Print Assumptions c08_head_waiters_woken.
 
 (* ---- the pipeline: every interleaving of writes, sync steps, acks, cursor attach ---- *)
 
